@@ -296,6 +296,8 @@ class ClientWorldObjectManager:
         for obj in tuple(self._fullid_lookup.values()):
             if obj.RegionHandle == handle:
                 del self._fullid_lookup[obj.FullID]
+                # Avatars are indexed separately, that index has to forget the object too
+                self._avatar_objects.pop(obj.FullID, None)
         if handle in self._region_managers:
             del self._region_managers[handle]
         self._rebuild_avatar_objects()
